@@ -268,7 +268,10 @@ def acquire_while_busy(v):
             before = [bytes(s.my_spi) for s in w.ctl['A'].ike_sas]
             out = w.acquire('A', sport=0, dport=0)
             n += 1
+            # ... and a second one, for other traffic (another port of the same entry): both wait, neither is lost, they are negotiated in order
+            out2 = w.acquire('A', sport=0, dport=81)
             after = [bytes(s.my_spi) for s in w.ctl['A'].ike_sas]
+            out = out if out is not None else out2
             if out is not None or after != before:
                 what = 'an IKE_SA_INIT request is sent' if out is not None and W.dec_header(bytes(out))['xchg'] == W.IKE_SA_INIT else 'a request is sent at once'
                 v.violation(f'ACQUIRE while a {kind} request is outstanding on the IKE_SA with that peer: {what}, IKE_SAs {len(before)} -> {len(after)} '
@@ -284,6 +287,20 @@ def acquire_while_busy(v):
             if nxt is None or W.dec_header(bytes(nxt))['xchg'] != W.CREATE_CHILD_SA or W.dec_header(bytes(nxt))['spi_i'] != W.dec_header(bytes(req))['spi_i']:
                 v.violation(f'the ACQUIRE queued behind a {kind} request is not negotiated on the same IKE_SA once the response arrives', {'outstanding': kind},
                             signature={'component': 'acquire:queued', 'outstanding': kind})
+                continue
+            res = w.dispatch('B', nxt, 'A')
+            nxt2 = w.dispatch('A', res, 'B')
+            kids_before = sum(len(s.child_sas) for s in w.sas('A'))
+            ports = lambda: sorted(c.tsr.get_port() if s.is_initiator else c.tsi.get_port() for s in w.sas('A') for c in s.child_sas)
+            if nxt2 is None or W.dec_header(bytes(nxt2))['xchg'] != W.CREATE_CHILD_SA:
+                v.violation(f'the second ACQUIRE queued behind a {kind} request is lost: nothing is negotiated for it', {'outstanding': kind, 'peer_ports_of_child_sas': ports()},
+                            signature={'component': 'acquire:queued-second', 'outstanding': kind})
+                continue
+            res = w.dispatch('B', nxt2, 'A')
+            w.dispatch('A', res, 'B')
+            if sum(len(s.child_sas) for s in w.sas('A')) != kids_before + 1 or not (set(ports()) & {0, 81}):
+                v.violation(f'the second ACQUIRE queued behind a {kind} request did not yield a CHILD_SA that covers its traffic (peer port 81)', {'peer_ports_of_child_sas': ports()},
+                            signature={'component': 'acquire:queued-second-ts', 'outstanding': kind})
         except wd.Escape as ex:
             v.violation(f'acquire while busy ({kind}): {ex}', {}, signature={'component': 'acquire:busy-escape', 'outstanding': kind})
         finally:
